@@ -415,7 +415,29 @@ func TestAddrUse(t *testing.T) {
 			cfg := rapid.SampledFrom([]uint8{0, ssM256, ssEIH, ssM256 | ssEIH}).Draw(rt, "ssCfg")
 			pad := rapid.SampledFrom([]int{0, 1, 900}).Draw(rt, "pad")
 			body := cat(make([]byte, 9), binary.BigEndian.AppendUint16(nil, uint16(pad)), make([]byte, pad), w.enc, []byte("dgram"))
-			out = oracleSS2022UDPServer(rt, cfg|ssFixTS, dgram(rapid.Uint64().Draw(rt, "sid"), rapid.Uint64().Draw(rt, "pid"), body))
+			// packet / session ids: edges of the 64-bit space, 2^k, and a second packet a jump of +-2^k away
+			id := func(label string) uint64 {
+				switch rapid.IntRange(0, 3).Draw(rt, label+"Kind") {
+				case 0:
+					return rapid.SampledFrom(extremeIDs).Draw(rt, label)
+				case 1:
+					return uint64(1) << rapid.IntRange(0, 63).Draw(rt, label+"Pow")
+				case 2:
+					return rapid.Uint64Range(0, 600).Draw(rt, label+"Small")
+				default:
+					return rapid.Uint64().Draw(rt, label+"Any")
+				}
+			}
+			sid, pid := id("sid"), id("pid")
+			jump := uint64(1) << rapid.IntRange(0, 63).Draw(rt, "jump")
+			data := dgram(sid, pid, body)
+			switch rapid.IntRange(0, 2).Draw(rt, "second") {
+			case 1:
+				data = cat(data, dgram(sid, pid+jump, body))
+			case 2:
+				data = cat(data, dgram(sid, pid-jump, body), dgram(sid, pid+1, body))
+			}
+			out = oracleSS2022UDPServer(rt, cfg|ssFixTS, data)
 		}
 		if !out.accepted {
 			rt.Fatalf("SIG=C06/harness-entry-rejected entry %s rejected a well-formed request for %q (%x)", name, w.hostPort(), w.enc)
